@@ -40,11 +40,19 @@ SRCS = {
     'pdeque': (2, True), 'pdequeref': (2, False), 'plist': (2, True), 'plistref': (2, False),
     'pbtree': (2, True), 'pbtreeref': (2, False), 'pheap': (2, True), 'pheapref': (2, False),
     'phash': (2, True), 'phashref': (2, False),
+    'pclonedad': (2, False), 'pcopiedad': (2, False), 'pclonedit': (2, False),
+    'pconvec': (2, True), 'pconslice': (2, False), 'pconrange': (2, False), 'pconiter': (2, True), 'pconiterpar': (2, True),
+    'pbtreemap': (2, False), 'pbtreemapref': (2, False), 'phashmap': (2, False), 'phashmapref': (2, False),
 }
+# sources whose constructor returns an opaque `impl Par` (no ParEmpty, no *_with_index): generic visitor path
+ADAPTORS = {'pclonedad', 'pcopiedad', 'pclonedit'}
 SRC_ENUM = {'svec': 'SVec', 'siter': 'SIter', 'pvec': 'PVec', 'piter': 'PIter', 'sslice': 'SSlice', 'srange': 'SRange',
             'pvecref': 'PVecRef', 'pslice': 'PSlice', 'psliceaspar': 'PSliceAsPar', 'parr3': 'PArr3', 'prange': 'PRange',
             'pdeque': 'PDeque', 'pdequeref': 'PDequeRef', 'plist': 'PList', 'plistref': 'PListRef', 'pbtree': 'PBTree',
-            'pbtreeref': 'PBTreeRef', 'pheap': 'PHeap', 'pheapref': 'PHeapRef', 'phash': 'PHash', 'phashref': 'PHashRef'}
+            'pbtreeref': 'PBTreeRef', 'pheap': 'PHeap', 'pheapref': 'PHeapRef', 'phash': 'PHash', 'phashref': 'PHashRef',
+            'pclonedad': 'PClonedAd', 'pcopiedad': 'PCopiedAd', 'pclonedit': 'PClonedIt', 'pconvec': 'PConVec', 'pconslice': 'PConSlice',
+            'pconrange': 'PConRange', 'pconiter': 'PConIter', 'pconiterpar': 'PConIterPar', 'pbtreemap': 'PBTreeMap',
+            'pbtreemapref': 'PBTreeMapRef', 'phashmap': 'PHashMap', 'phashmapref': 'PHashMapRef'}
 
 
 def chains():
@@ -173,7 +181,7 @@ def build():
         o = []
         w = o.append
         w('// @generated by /verif/tools/gen.py — do not edit (weight %d)' % tot)
-        w('#![allow(clippy::all, unused_imports, dead_code, unused_variables)]')
+        w('#![allow(clippy::all, unused_imports, dead_code, unused_variables, non_camel_case_types)]')
         w('use hcore::case::{termv, Case, Eff, Src};')
         w('use hcore::closures as cl;')
         w('use hcore::settings::Settings;')
@@ -191,6 +199,28 @@ def build():
         for s in sorted(by_src):
             cs = sorted(by_src[s], key=lambda c: idx[c])
             owned = SRCS[s][1]
+            if s in ADAPTORS:
+                w('fn g_%s<P, V>(cid: usize, p: P, st: &Settings, v: V) -> V::Out' % s)
+                w('where P: Par, P::Item: Item, V: Visit,')
+                w('{')
+                w('    match cid {')
+                for c in cs:
+                    w('        %d => { %s }' % (idx[c], body(c, 'v.visit(p)')))
+                w('        _ => unreachable!(),')
+                w('    }')
+                w('}')
+                w('struct K_%s<\'a>(&\'a Case, &\'a Settings);' % s)
+                w('impl srcs::ParK for K_%s<\'_> {' % s)
+                w('    fn call<P: Par>(self, p: P) -> TermResult where P::Item: Item {')
+                w('        match self.0.term {')
+                w('            Term::FindIdx | Term::FirstIdx => TermResult::NA,')
+                w('            t if t.needs_tok() => TermResult::NA,')
+                w('            _ => g_%s(self.0.chain, p, self.1, termv(self.0)),' % s)
+                w('        }')
+                w('    }')
+                w('}')
+                w('')
+                continue
             w('fn c_%s<I, V>(cid: usize, p: ParEmpty<I>, st: &Settings, v: V) -> V::Out' % s)
             w('where I: ConcurrentIter, I::Item: Item, V: Visit,')
             w('{')
@@ -244,7 +274,10 @@ def build():
         w('    match (case.src, case.chain) {')
         for s in sorted(by_src):
             cs = sorted(idx[c] for c in by_src[s])
-            w('        (Src::%s, %s) => Some(srcs::%s(case, eff, |p| go_%s(case, st, p))),' % (SRC_ENUM[s], ' | '.join(map(str, cs)), s, s))
+            if s in ADAPTORS:
+                w('        (Src::%s, %s) => Some(srcs::%s(case, eff, K_%s(case, st))),' % (SRC_ENUM[s], ' | '.join(map(str, cs)), s, s))
+            else:
+                w('        (Src::%s, %s) => Some(srcs::%s(case, eff, |p| go_%s(case, st, p))),' % (SRC_ENUM[s], ' | '.join(map(str, cs)), s, s))
         w('        _ => None,')
         w('    }')
         w('}')
